@@ -112,6 +112,10 @@ func NewConsumerGroup(parent, fanOutPath string, q FanOutQueue) (ConsumerGroup, 
 		if ackSeq < ackOfQueue {
 			ackSeq = ackOfQueue
 		}
+		// keep ack <= consumed, messages at or below the ack may already be garbage collected
+		if consumedSeq < ackSeq {
+			consumedSeq = ackSeq
+		}
 	}
 	// persist metadata
 	metaPage.PutUint64(uint64(consumedSeq), consumerGroupConsumedSeqOffset)
